@@ -8,6 +8,7 @@ import PicoSVG.Proofs.LexP
 import PicoSVG.Proofs.SepP
 import PicoSVG.Proofs.NumAgree
 import PicoSVG.Proofs.SepAgree
+import PicoSVG.Proofs.TokAgree
 
 set_option linter.unusedSectionVars false
 namespace PicoSVG.C10
@@ -68,6 +69,21 @@ theorem matchBool_is_grammar_flag (cs : List Char) : matchBool cs = Spec.PathGra
     rejects) -/
 theorem optCommaWsp_eq_split (cs : List Char) (h : SepAgree.sepRunOK cs = true) :
     Spec.PathGrammar.optCommaWsp cs = cs.dropWhile isSep := SepAgree.optCommaWsp_eq_dropSep cs h
+
+/-- C10-i (tokenizer = grammar, `_parse_args` of a command without flags): when it returns, its arguments are, in order,
+    exactly the lexemes the grammar's `number` production reads off the separator-free runs of the argument text, applied over
+    and over (`TokAgree.gscanAll`: the peel loop with `number` in place of the regular expression) — for every argument text,
+    by induction over the loop with the fuel the code gives it.  The one place where the two scanners differ, a bare integer
+    in front of a dot (`1.`), never gets through: the next match fails and the code raises ValueError
+    (`bare_integer_before_dot_is_rejected`). -/
+theorem parseArgs_reads_grammar_numbers (cmd : Char) (raw : List Char) (args : List Arg)
+    (hc : (cmd == 'a' || cmd == 'A') = false) (h : parseArgs cmd raw = .ok args) :
+    ∃ ls, TokAgree.gscanAll ((splitSep raw).foldl (fun a t => a + t.length) 0 + 1) (splitSep raw) = some ls ∧
+      args = ls.map (fun l => Arg.num (String.ofList l)) := TokAgree.parseArgs_is_grammar cmd raw args hc h
+
+theorem bare_integer_before_dot_is_rejected (cs l r : List Char) (h : matchFloat cs = some (l, r))
+    (hd : NumAgree.startsDot r = true) (hm : NumAgree.hasMark l = false) : matchFloat r = none :=
+  TokAgree.bare_then_dot_fails cs l r h hd hm
 
 /-! tie to the source: the regular expressions and tables the scanners stand for -/
 theorem gen_cmd_re : Gen.cmdRe = ("([mzlhvcsqtaMZLHVCSQTA])", 32) := by decide
